@@ -278,4 +278,43 @@ example : DT.Frag (.dictionary (.simple "Int32") (.list "List" false (.decimal "
   · simp [DT.Frag, DT.simpleNames, DT.listKinds, DT.decimalNames]; decide
   · decide
 
+
+/-! ## 6. floating point → decimal / integer -/
+
+/-- **Float → decimal(p, s) is the exact conversion whenever the binary64 product
+`10^s · v` is computed without rounding error** (`hx`: the product `m2·2^e2` equals
+`m·2^e·10^s` as a rational — always the case for scale 0, and for every product that is
+representable): the result is `v·10^s` rounded half away from zero (`f64::round`), accepted iff
+it has at most `p` digits.  Where the product itself is rounded (`mul * input` is a binary64
+multiplication and `powi` accumulates roundings) the code rounds twice; the harness tags those
+rows `float:double-rounding` and compares them with the algorithm model only. -/
+theorem floatToDecimal_exact (w p : Nat) (s : Int) (hw : WidthOK w) (hp : p ≤ maxPrecision w)
+    (neg : Bool) (m : Nat) (e : Int) (m2 : Nat) (e2 : Int)
+    (hx : m * 2 ^ e.toNat * 10 ^ s.toNat * 2 ^ (-e2).toNat = m2 * 2 ^ e2.toNat * 2 ^ (-e).toNat * 10 ^ (-s).toNat) :
+    floatProdToDec w p (.fin neg m2 e2) = floatToDecSpec p s neg m e :=
+  floatToDec_exact_of_prod w p s hw hp neg m e m2 e2 hx
+
+/-- the rounding step alone: for any finite product `x`, `from_f64(x.round())` + precision
+check is the exact half-away-from-zero rounding of the dyadic rational `x` -/
+theorem floatRound_exact (w p : Nat) (hw : WidthOK w) (hp : p ≤ maxPrecision w)
+    (neg : Bool) (m : Nat) (e : Int) :
+    floatProdToDec w p (.fin neg m e) = floatToDecSpec p 0 neg m e :=
+  floatProdToDec_exact w p hw hp neg m e
+
+/-- NaN and ±∞ never convert -/
+theorem floatNonFinite_none (w p : Nat) : floatProdToDec w p .nan = none ∧
+    ∀ n, floatProdToDec w p (.inf n) = none := ⟨rfl, fun _ => rfl⟩
+
+/-- **Float → integer**: truncation toward zero, representable iff inside the target range. -/
+theorem floatToInt_exact (lo hi : Int) (neg : Bool) (m : Nat) (e : Int) :
+    floatToInt lo hi (.fin neg m e) = floatToIntSpec lo hi neg m e := by
+  simp [floatToInt, floatToIntSpec, fTrunc, numCast, inRange]
+
+/-- non-vacuity / the seeded-mutation witness: 4503599627370497.0 (odd, in [2^52, 2^53)) →
+Decimal128(20, 0) is 4503599627370497; 0.49999999999999994 → 0; 2.5 → 3; -2.5 → -3 -/
+example : floatToDec 128 20 0 (decodeF 11 52 4841369599423283201) = some 4503599627370497 ∧
+    floatToDec 128 20 0 (decodeF 11 52 4602678819172646911) = some 0 ∧
+    floatToDec 128 20 0 (decodeF 11 52 4612811918334230528) = some 3 ∧
+    floatToDec 128 20 0 (decodeF 11 52 13836183955189006336) = some (-3) := by decide
+
 end ArrowModel.C13
